@@ -2,6 +2,10 @@ package checks
 
 import (
 	"fmt"
+	"os"
+	"os/exec"
+	"path/filepath"
+	"time"
 
 	"verif/corpus"
 )
@@ -16,10 +20,25 @@ func C06(c *Ctx) int {
 		fmt.Println("generate:", err)
 		return 2
 	}
+	// "whenever it succeeds the generated files compile with the package":
+	// build every accepted item natively first (concrete, per item)
+	for _, it := range items {
+		if !(it.ExitOK && it.Files) {
+			continue
+		}
+		cmd := exec.Command("go", "build", "./"+it.Pkg+"/...")
+		cmd.Dir = filepath.Join(c.Scratch, "gen")
+		cmd.Env = goEnv()
+		if out, err := runTimeout(cmd, 3*time.Minute); err != nil {
+			o.Violations = append(o.Violations, fmt.Sprintf("VIOLATION property=C06 replay=%s", c.SaveReplay("does-not-compile-"+it.Name,
+				map[string]any{"item": it.Name, "note": it.Custom.Note, "what": "lox succeeded but the generated files do not compile with the package", "go_build": string(out)})))
+			it.ExitOK = false
+			os.RemoveAll(it.Dir)
+		}
+	}
 	prog, err := c.LoadGen()
 	if err != nil {
-		// the generated files must compile with the package: a load error is a violation candidate
-		o.Broken = append(o.Broken, "generated code does not type-check: "+err.Error())
+		o.Broken = append(o.Broken, "generated code does not load: "+err.Error())
 		return c.Finish(o)
 	}
 	maxN := 6
@@ -28,6 +47,9 @@ func C06(c *Ctx) int {
 	}
 	byName := map[string]*GenItem{}
 	for _, it := range items {
+		if _, gone := os.Stat(it.Dir); gone != nil && it.Files {
+			continue // reported above: does not compile
+		}
 		if !(it.ExitOK && it.Files) {
 			o.Violations = append(o.Violations, fmt.Sprintf("VIOLATION property=C06 replay=%s", c.SaveReplay("lox-rejects-"+it.Name,
 				map[string]any{"item": it.Name, "note": it.Custom.Note, "what": "lox rejects a type layout whose parameter types accept the term types by Go assignability", "stderr": it.Stderr})))
